@@ -113,6 +113,12 @@ def run_one(res, ctx, root, rng, idx):
         args.append("--single-line")
     if cause == "multi-line":
         args.append("--multi-line")
+    if cause == "terminator" and rng.random() < 0.35:
+        # the block form asked for explicitly, alone or next to --no-replace: the holder's terminator then ends the block early
+        args.append("--multi-line")
+        if rng.random() < 0.5:
+            args.append("--no-replace")
+    line_mode = "--multi-line" if "--multi-line" in args else "--single-line" if "--single-line" in args else None
     forced = None
     if cause == "style-vs-line-mode":
         # the forced style decides whether --single-line / --multi-line can be honoured, whatever the file names suggest
@@ -145,14 +151,14 @@ def run_one(res, ctx, root, rng, idx):
         if k in UNREC + ("bin",) and not sib and dot is None and not forced:
             usage = True  # no recognised comment style and no option saying what to do
         # the pre-flight line-handling check looks at the path annotate will open: FILE.license when it already exists
-        if cause in ("single-line", "multi-line"):
+        if cause in ("single-line", "multi-line", "terminator") and line_mode:
             if sib:
                 usage = True  # a .license target (EmptyCommentStyle) supports neither
             elif style is not None:
                 st = ctx.state["styles"][style]
-                if cause == "single-line" and not st["single"]:
+                if line_mode == "--single-line" and not st["single"]:
                     usage = True
-                if cause == "multi-line" and not (st["multi"][0] and st["multi"][2]):
+                if line_mode == "--multi-line" and not (st["multi"][0] and st["multi"][2]):
                     usage = True
         if k in UNREC and dot == "--skip-unrecognised" and not sib:
             exp[j] = "skip"
@@ -168,7 +174,7 @@ def run_one(res, ctx, root, rng, idx):
         elif k == "badhdr":
             exp[j] = "any"  # the broken header is not recognised as a header: layer 1 only
         elif term is not None and style in TERMINATOR and TERMINATOR[style] == term and (
-                cause == "multi-line" or not ctx.state["styles"][style]["single"]):
+                line_mode == "--multi-line" or not ctx.state["styles"][style]["single"]):
             exp[j] = "fail"
         else:
             exp[j] = "ok"
